@@ -170,7 +170,8 @@ class Checker:
         :param user_fns: user functions
         :type user_fns: dict[str, :any:`UserFn`]
         """
-        model = bny.LvsModel.parse(binary_model)
+        # (a copy: the parsed model keeps views into the buffer, which stays the caller's to re-use)
+        model = bny.LvsModel.parse(bytes(binary_model))
         return Checker(model, user_fns)
 
     def _context_to_name(self, context: dict[int, BinaryStr]) -> dict[str, BinaryStr]:
